@@ -8,7 +8,10 @@ S2  the method wrapper passes its own covariance matrix, the first sensor's
 Lemma (trusted): for symmetric PSD M, R = B M^+ satisfies R M = B on range(M) (the
 retained singular subspace) and minimises E|s_on - R s_off|^2; hence the formula
 shape decides the normal-equation clause for all matrices and conditionings.
-Not decided: the duplicate-sensor clause (needs covariance values); rounding.
+S3  duplicate-sensor clause, structural part only: the covariance builder whose output the wrapper inverts
+    carries nothing from one sensor's loop iteration to the next (a duplicate of a sensor then gets the same
+    projected geometry as the sensor, whatever is listed between them).  The values themselves are C01's subject.
+Not decided: the duplicate-sensor clause beyond S3 (needs covariance values); rounding.
 """
 from ..common import get_index, nf, check_equal, same_value
 from ..interp import Interp, has_unknown, Obj
@@ -84,4 +87,12 @@ def run(rep, tier, root=None):
         stored = o.attrs.get("tomographic_reconstructor")
         rep.check(stored is not None and isinstance(stored, Rat) and stored == r2[0][1], "S2.wrapper",
                   g.fq + ": returned value is the stored reconstructor", "stored and returned reconstructors differ", g.where())
-    rep.floor("C02 obligations", len(rep.obligations), 4)
+    # ---- S3 duplicate-sensor clause, structural part: the matrix the wrapper inverts treats two sensors with equal
+    # (direction, mask, wavelength, altitude) identically only if nothing computed for one sensor is carried to the next
+    from .c01 import no_carried_state
+    top = cls.find_method("make_covariance_matrix")
+    if top is None:
+        raise AnalysisError("CovarianceMatrix.make_covariance_matrix not found")
+    rep.functions_analysed.add(top.fq)
+    no_carried_state(rep, ix, top, "S3.sensor-equivalence")
+    rep.floor("C02 obligations", len(rep.obligations), 5)
